@@ -18,7 +18,7 @@
      res/ids in order of the Begin tokens; r = nil|timeout|err|run; id = '-' for mode a
      sz = waiter-table size at every snapshot token, then at the end. *)
 From PV Require Import Base.Text Model.Ping Model.PingTrace Model.PingFrame Model.PingScript Model.PingKnown.
-From PV Require Import Spec.PingRFC Spec.PingSpec Model.PingAbs.
+From PV Require Import Spec.PingRFC Spec.PingSpec Model.PingAbs Model.PingVDR.
 Open Scope string_scope.
 Open Scope N_scope.
 
@@ -233,7 +233,17 @@ Definition consts_obs : string :=
   ++ ";minlen=" ++ min_echo_len.
 
 Definition dispatch (kind : string) (args : list string) : string :=
-  if String.eqb kind "consts" then out3 consts_obs "-" "-"
+  if String.eqb kind "vdr" then
+    (* vdr a0 a1 a2: is the k-th echo request answered (T) or left to time out (F) *)
+    match map bool_of_tok args with
+    | [Some a0; Some a1; Some a2] =>
+        let r b := if b : bool then RNil else RTimeout in
+        let '(o, n) := vdr (r a0) (r a1) (r a2) in
+        out3 ((match o with VNil => "nil" | VTimeout => "timeout" | VNotRedirected => "notredirected" end)
+              ++ "/" ++ dec_of_nat n) "-" "-"
+    | _ => BADARGS
+    end
+  else if String.eqb kind "consts" then out3 consts_obs "-" "-"
   else if String.eqb kind "scn" then
     match args with
     | n :: ws =>
